@@ -5,6 +5,7 @@ package nebula
 // Thin exports for the verification harness engine `connmgr` (add-only, no behaviour).
 
 import (
+	"context"
 	"net/netip"
 	"time"
 
@@ -94,6 +95,11 @@ func VerifConnMgrNew(myAddr netip.Addr, caPool *cert.CAPool) *VerifConnMgr {
 	cm := newConnectionManagerFromConfig(l, conf, hm, punchy)
 	cm.intf = f
 	f.connectionManager = cm
+	// relay migration consults the relay manager (am_relay); wire one configured as a relay, which is
+	// the configuration the connmgr model of migrateRelayUsed describes
+	rconf := config.NewC(l)
+	rconf.Settings["relay"] = map[string]any{"am_relay": true, "use_relays": true}
+	f.relayManager = NewRelayManager(context.Background(), l, hm, rconf)
 	return &VerifConnMgr{Main: hm, HS: hs, F: f, CM: cm}
 }
 
